@@ -30,7 +30,10 @@ type c10case struct {
 	Chunks [][]chunk `json:"chunks"` // upstream chunk script per stream
 	Dest   []int     `json:"dest"`
 	ErrAt  int       `json:"errat"` // inject an upstream error at this call of stream 0 (-1: none)
-	Data   uint64    `json:"dataseed"`
+	// ErrRows: the failing call delivers up to this many rows together with the error, and the
+	// stream reports EOF afterwards instead of repeating the error
+	ErrRows int    `json:"errrows,omitempty"`
+	Data    uint64 `json:"dataseed"`
 }
 
 // schemas usable for reduce: key columns followed by one int64 value column.
@@ -113,7 +116,7 @@ func runC10case(t *vf.T, c c10case) {
 			for i := 0; i < c.ErrAt; i++ {
 				up.script = append(up.script, c.Chunks[0][i%len(c.Chunks[0])])
 			}
-			up.script = append(up.script, chunk{Err: true})
+			up.script = append(up.script, chunk{Err: true, N: c.ErrRows})
 		}
 		r, err := sortio.SortReader(ctx, c.Spill, typ, up)
 		if n := len(spillDirs()); n > before {
@@ -186,7 +189,7 @@ func runC10case(t *vf.T, c c10case) {
 				for j := 0; j < c.ErrAt; j++ {
 					up.script = append(up.script, script[j%len(script)])
 				}
-				up.script = append(up.script, chunk{Err: true})
+				up.script = append(up.script, chunk{Err: true, N: c.ErrRows})
 				up0 = up
 			}
 			readers = append(readers, up)
@@ -279,6 +282,22 @@ func runC10(r *vf.Runner) {
 		}
 		run(c10case{Kind: "merge", Schema: si, Prefix: c10schemas[si].MaxKey, Rows: []int{0, 5, 0, 300, 1}, Dist: "small", Batch: 2, Chunks: noEmpty, Dest: []int{1, 128}, ErrAt: -1, Data: uint64(si)})
 		run(c10case{Kind: "merge", Schema: si, Prefix: 1, Rows: []int{}, Dist: "small", Batch: 2, Chunks: noEmpty, Dest: []int{4}, ErrAt: -1, Data: uint64(si)})
+	}
+	// a failing read that delivers rows together with its error, after which the stream reports EOF
+	for _, kind := range []string{"sort", "merge", "reduce"} {
+		for _, at := range []int{0, 1, 2} {
+			for _, er := range []int{1, 50, 200} {
+				c := c10case{Kind: kind, Schema: 0, Prefix: 1, Rows: []int{400, 5, 300}, Dist: "small", Spill: 100, Canary: 17, Batch: 128, Chunks: noEmpty, Dest: []int{128}, ErrAt: at, ErrRows: er, Data: uint64(at*7 + er)}
+				if kind == "sort" {
+					c.Rows = []int{400}
+					c.Chunks = noEmpty[:1]
+				}
+				if kind == "reduce" {
+					c.Prefix = c10schemas[0].MaxKey
+				}
+				run(c)
+			}
+		}
 	}
 	n := 400
 	if !r.Quick() {
